@@ -173,7 +173,7 @@ class AsyncRunnerTemplate(BaseRunner, ABC):
         _validate_on_missing(on_missing)
         _validate_error_handling(error_handling)
 
-        max_iter = max_iterations or self.default_max_iterations
+        max_iter = max_iterations if max_iterations is not None else self.default_max_iterations
         dispatcher = self._create_dispatcher(event_processors)
         run_id, run_span_id = await self._emit_run_start_async(
             dispatcher,
